@@ -536,8 +536,8 @@ impl Engine for CertChainEngine {
         }
         Some(Plan {
             runs: match tier {
-                Tier::Quick => 2000,
-                Tier::Thorough => 100_000,
+                Tier::Quick => 4000,
+                Tier::Thorough => 200_000,
             },
             level: "exploration",
             rule: "one run = one seeded history: an honest chain (2-7 epochs, 1-4 certificates per epoch, real keys and STM multi-signatures, signer sets and parameters evolving at epoch boundaries with a per-run stability knob) + an adversary workshop, then 1-6 verify calls (70 % mithril_client verify_chain, 30 % common verify_certificate_chain) against one persistent client (cache in 50 % of runs), each with 0-3 provider lies, plus cache resets and persistent provider mode switches; 20 % of runs are fault-free. A run is non-trivial iff at least one call reached a verdict and, in adversarial runs, at least one lie or adversarial certificate was actually served. distinct = distinct hash of the per-call sequence (subject, verdict / rejection class, oracle verdict, kinds of lies served, cache hit yes/no). states = distinct (subject, cache, verdict class, oracle verdict, lie kinds, #cache hits, #requests) tuples.".into(),
